@@ -12,8 +12,10 @@ CH = 'proxy/http/parser/chunk.py'
 PF = 'proxy/http/parser/parser.py'
 UT = 'proxy/common/utils.py'
 LEVEL = 'proof'
-EXPLANATION = ('step contracts are proved for all inputs; segmentation independence of whole messages is a bounded '
-               'native sweep (every 1..3-piece segmentation of a generated message family, plus byte-by-byte)')
+EXPLANATION = ('step contracts, the parse() driver loop (what is consumed / kept, termination) and the parser representation invariant '
+               'are proved for all inputs; segmentation independence of whole messages is a bounded native sweep (every 1..3-piece '
+               'segmentation of a generated message family, plus byte-by-byte) with a hostile-input termination sweep and a CPython '
+               'cross-check of the contracts')
 ASSUMPTIONS = ['A-STR: int(text, 16) / int(text) uninterpreted; whitespace = the six ASCII whitespace bytes',
                'segmentation independence of complete messages: bounded native sweep, not proved']
 CRLF = "b'\\r\\n'"
